@@ -26,6 +26,7 @@ var registry = map[string]entry{
 	"C12": {"exploration", props.C12},
 	"C13": {"exploration", props.C13},
 	"C14": {"exploration", props.C14},
+	"C15": {"exploration", props.C15},
 	"C16": {"exploration", props.C16},
 	"C17": {"exploration", props.C17},
 	"C18": {"exploration", props.C18},
